@@ -86,6 +86,10 @@ func pollQueueScenario(name string, consumers int, producers [][]int, getter boo
 					n := 0
 					if len(ps) == 0 {
 						n = q.LenUnlocked() // no scheduling point since poll returned
+					} else {
+						// the consumer needs time to write the batch out (the slice it was handed is read
+						// only afterwards, as the HTTP handler does): anything may happen meanwhile
+						vsched.Yield()
 					}
 					record(who, ps, n)
 				}
@@ -292,6 +296,31 @@ func packetQueueScenario(name string, producers [][]int, closer, resetter bool, 
 	return sc
 }
 
+// slowWriter: writing the response takes time (a scheduling point before the status line and before every
+// chunk of the body goes out), as a network write does: the handler reads the batch it took only afterwards.
+type slowWriter struct {
+	*httptest.ResponseRecorder
+	// queued: length of the transport's queue when the handler came back from its poll (read before the first
+	// yield: there is no scheduling point between the poll's return and the first write)
+	queued  *int
+	lenFunc func() int
+}
+
+func (w slowWriter) WriteHeader(code int) {
+	if *w.queued < 0 {
+		*w.queued = w.lenFunc()
+	}
+	vsched.Yield()
+	w.ResponseRecorder.WriteHeader(code)
+}
+func (w slowWriter) Write(p []byte) (int, error) {
+	if *w.queued < 0 {
+		*w.queued = w.lenFunc()
+	}
+	vsched.Yield()
+	return w.ResponseRecorder.Write(p)
+}
+
 // ---- 3. the real polling.ServerTransport: pollers through ServeHTTP(GET), senders through Send.
 func transportScenario(name string, pollers int, senders [][]int, discard bool, bound int) *vx.Scenario {
 	total := 0
@@ -332,8 +361,11 @@ func transportScenario(name string, pollers int, senders [][]int, discard bool, 
 					}
 					rec := httptest.NewRecorder()
 					req, _ := http.NewRequest("GET", "http://x/engine.io/?EIO=4&transport=polling&sid=s", nil)
-					tr.ServeHTTP(rec, req)
-					queued := tr.VerifQueueLenUnlocked() // no scheduling point since the handler returned
+					queued := -1
+					tr.ServeHTTP(slowWriter{rec, &queued, tr.VerifQueueLenUnlocked}, req)
+					if queued < 0 {
+						queued = tr.VerifQueueLenUnlocked() // the handler wrote nothing: no scheduling point since its poll returned
+					}
 					body := rec.Body.String()
 					sawDiscard := false
 					obs.Do(func() {
@@ -443,6 +475,10 @@ func scenarios(tier string) []*vx.Scenario {
 		pollQueueScenario("pollQueue/1c-1p-adds-twice", 1, [][]int{{1, 2}}, false, -1),
 		pollQueueScenario("pollQueue/1c-2p-getter", 1, [][]int{{1}, {1}}, true, -1),
 		pollQueueScenario("pollQueue/2c-2p", 2, [][]int{{1}, {1}}, false, -1),
+		// two consumers that are slow to write their batch out and three batches: a queue that recycles the
+		// memory of a batch it handed out shows here
+		pollQueueScenario("pollQueue/2c-1p-adds-thrice", 2, [][]int{{1, 1, 1}}, false, big),
+		pollQueueScenario("pollQueue/2c-1p-adds-2-1-2", 2, [][]int{{2, 1, 2}}, false, big),
 		packetQueueScenario("packetQueue/1p", [][]int{{1}}, false, false, -1),
 		packetQueueScenario("packetQueue/2p", [][]int{{1}, {2}}, false, false, -1),
 		packetQueueScenario("packetQueue/3p", [][]int{{1}, {2}, {3}}, false, false, big),
@@ -452,6 +488,8 @@ func scenarios(tier string) []*vx.Scenario {
 		packetQueueScenario("packetQueue/1p-reset-closer", [][]int{{1, 1}}, true, true, big),
 		transportScenario("transport/1poller-2senders", 1, [][]int{{1}, {1}}, false, -1),
 		transportScenario("transport/1poller-1sender-discard", 1, [][]int{{1}}, true, -1),
+		transportScenario("transport/2pollers-1sender-thrice", 2, [][]int{{1, 1, 1}}, false, big),
+		transportScenario("transport/2pollers-1sender-twice-discard", 2, [][]int{{1, 1}}, true, big-1),
 	}
 	if tier == "thorough" {
 		s = append(s,
@@ -480,7 +518,7 @@ func main() {
 			if tier == "thorough" {
 				return 15 * time.Minute
 			}
-			return 100 * time.Second
+			return 150 * time.Second
 		},
 		Assumptions: []string{
 			"vsched's model of Go mutexes, channels, select and timers (validated by the litmus suite in harness/litmus)",
